@@ -1274,7 +1274,41 @@ def _norm_embedded(text):
     return out
 
 
+_FRAME_BIND = re.compile(r'^(each|for) (\(([^)]*)\)|[A-Za-z_][A-Za-z0-9_]*) in ')
+
+
+def alpha_line(line):
+    """loop-bound names are renamed to $1, $2, .. in order of binding (a renamed loop variable is the same summary)"""
+    if ' : ' in line:
+        ctx, eff = line.split(' : ', 1)
+        parts = ctx.split(' | ')
+    else:
+        return line
+    if not all(p_.startswith(('each ', 'for ', 'case ', 'if ')) for p_ in parts):
+        return line
+    ren = []
+    for p_ in parts:
+        m = _FRAME_BIND.match(p_)
+        if m:
+            names = [x.strip() for x in m.group(3).split(',')] if m.group(3) is not None else [m.group(2)]
+            for nm in names:
+                if nm and nm != '_' and nm not in [a for a, _b in ren]:
+                    ren.append((nm, '$%d' % (len(ren) + 1)))
+    if not ren:
+        return line
+
+    def sub(t):
+        for a, b in ren:
+            t = re.sub(r'(?<![A-Za-z0-9_$])(et_)?%s(?![A-Za-z0-9_])' % re.escape(a), lambda m_: (m_.group(1) or '') + b, t)
+        return t
+    return ' | '.join(sub(p_) for p_ in parts) + ' : ' + sub(eff)
+
+
 def norm_line(line):
+    return _norm_line(alpha_line(line))
+
+
+def _norm_line(line):
     """normal form of one effect line `ctx1 | ctx2 : effect`: loop / case contexts keep their order, every `if` context is moved behind them and all
     conditions are merged into one sorted conjunction (an `if` that does not depend on an inner loop may stand outside it or inside it, and
     `if a { if b {..} }` is `if a && b {..}`: the summaries are equal)"""
